@@ -379,3 +379,147 @@ Qed.
 
 Lemma line_scan_nil : line_scan [] = [].
 Proof. reflexivity. Qed.
+
+(** * Liquibase: the rollback lines of the changesets, last changeset first *)
+
+Lemma lines_go_app a : forall acc b,
+  lines_go acc (a ++ 10%N :: b) = lines_go acc a ++ lines b.
+Proof.
+  induction a as [|c a IH]; intros acc b; simpl; [reflexivity|].
+  destruct (N.eqb c 10); [simpl; f_equal; apply IH|apply IH].
+Qed.
+Lemma lines_app a b : lines (a ++ 10%N :: b) = lines a ++ lines b.
+Proof. apply lines_go_app. Qed.
+
+Lemma lines_go_no_nl a : forall acc, no_nl a = true -> lines_go acc a = [List.rev acc ++ a].
+Proof.
+  induction a as [|c a IH]; intros acc H; simpl; [now rewrite app_nil_r|].
+  simpl in H. apply andb_true_iff in H as [H1 H2]. apply negb_true_iff in H1. rewrite H1.
+  rewrite IH by exact H2. simpl. now rewrite <- app_assoc.
+Qed.
+Lemma lines_no_nl a : no_nl a = true -> lines a = [a].
+Proof. intros H. unfold lines. now rewrite lines_go_no_nl. Qed.
+
+Lemma has_prefix_app p s : has_prefix (p ++ s) p = true.
+Proof. induction p as [|x p IH]; simpl; [reflexivity|]. now rewrite N.eqb_refl. Qed.
+
+Lemma trim_semi_snoc s : trim_semi (s ++ [59%N]) = s.
+Proof. unfold trim_semi. rewrite rev_app_distr. simpl. now rewrite rev_involutive. Qed.
+
+Lemma skipn_length_app {B} (a b : list B) : skipn (length a) (a ++ b) = b.
+Proof. induction a; simpl; auto. Qed.
+
+Lemma lq_rollback_line_read s :
+  no_nl s = true ->
+  flat_map lq_rollback_of_line (lines (s_lq_rollback ++ s ++ [59%N])) = [s].
+Proof.
+  intros H. rewrite lines_no_nl.
+  - cbn [flat_map]. rewrite app_nil_r. unfold lq_rollback_of_line. rewrite has_prefix_app.
+    rewrite skipn_length_app, trim_semi_snoc. reflexivity.
+  - rewrite !no_nl_app, H. reflexivity.
+Qed.
+
+Lemma lq_rollback_line_split s rest :
+  lq_rollback_line s ++ rest = (s_lq_rollback ++ s ++ [59%N]) ++ 10%N :: rest.
+Proof. unfold lq_rollback_line, s_semi_nl. rewrite <- !app_assoc. reflexivity. Qed.
+
+Lemma lq_rollback_lines_read stmts :
+  (forall s, In s stmts -> no_nl s = true) ->
+  flat_map lq_rollback_of_line (lines (concat (map lq_rollback_line stmts))) = stmts.
+Proof.
+  induction stmts as [|s stmts IH]; intros H; [reflexivity|].
+  cbn [map concat]. rewrite lq_rollback_line_split.
+  rewrite lines_app, flat_map_app, lq_rollback_line_read by (apply H; now left).
+  cbn [app]. f_equal. apply IH. intros s' Hs'. apply H. now right.
+Qed.
+
+Lemma dec_loop_no_nl fuel : forall n acc, no_nl acc = true -> no_nl (dec_loop fuel n acc) = true.
+Proof.
+  induction fuel as [|f IH]; intros n acc H; cbn [dec_loop]; [exact H|].
+  set (d := (48 + N.modulo n 10)%N).
+  assert (Hd : N.eqb d 10 = false).
+  { apply N.eqb_neq. unfold d. pose proof (N.mod_lt n 10 ltac:(discriminate)) as Hlt.
+    revert Hlt. generalize (N.modulo n 10). intros m Hlt. lia. }
+  assert (Hda : no_nl (d :: acc) = true) by (cbn [no_nl]; rewrite Hd, H; reflexivity).
+  destruct (n <? 10)%N; [exact Hda|apply IH; exact Hda].
+Qed.
+Lemma dec_no_nl n : no_nl (dec n) = true.
+Proof. apply dec_loop_no_nl. reflexivity. Qed.
+
+Lemma has_prefix_changeset now k :
+  has_prefix ([45;45;99;104;97;110;103;101;115;101;116;32;97;116;108;97;115;58]%N ++ now ++ s_dash ++ dec k) s_lq_rollback = false.
+Proof. reflexivity. Qed.
+
+Lemma lq_changeset_read now index c :
+  no_nl now = true -> no_nl (c_comment c) = true -> lq_cmd_ok (c_cmd c) = true ->
+  (forall s, In s (ReverseStmts c) -> no_nl s = true) ->
+  lq_rollbacks (lq_changeset now index c) = ReverseStmts c.
+Proof.
+  intros Hn Hc Hcmd Hs. unfold lq_rollbacks, lq_changeset, s_lq_changeset, s_nl, s_semi_nl.
+  set (A := [45;45;99;104;97;110;103;101;115;101;116;32;97;116;108;97;115;58]%N ++ now ++ s_dash ++ dec (S index)).
+  set (B := if nonempty (c_comment c) then s_lq_comment ++ c_comment c else []).
+  replace (([10;45;45;99;104;97;110;103;101;115;101;116;32;97;116;108;97;115;58]%N ++
+            now ++ s_dash ++ dec (S index) ++ [10%N] ++ B ++ [10%N] ++ c_cmd c ++ [59%N; 10%N] ++
+            concat (map lq_rollback_line (ReverseStmts c))))
+    with ([] ++ 10%N :: A ++ 10%N :: B ++ 10%N :: (c_cmd c ++ [59%N]) ++ 10%N ::
+          concat (map lq_rollback_line (ReverseStmts c))).
+  2:{ unfold A. simpl. rewrite <- !app_assoc. simpl. reflexivity. }
+  rewrite lines_app.
+  replace (A ++ 10%N :: B ++ 10%N :: (c_cmd c ++ [59%N]) ++ 10%N :: concat (map lq_rollback_line (ReverseStmts c)))
+    with (A ++ 10%N :: (B ++ 10%N :: (c_cmd c ++ [59%N]) ++ 10%N :: concat (map lq_rollback_line (ReverseStmts c))))
+    by reflexivity.
+  rewrite lines_app.
+  rewrite lines_app.
+  rewrite lines_app.
+  rewrite !flat_map_app.
+  rewrite lq_rollback_lines_read by exact Hs.
+  assert (HA : no_nl A = true).
+  { unfold A. rewrite !no_nl_app, Hn, dec_no_nl. reflexivity. }
+  assert (HB : no_nl B = true).
+  { unfold B. destruct (nonempty (c_comment c)); [|reflexivity]. rewrite no_nl_app, Hc. reflexivity. }
+  rewrite (lines_no_nl A HA), (lines_no_nl B HB).
+  assert (E1 : flat_map lq_rollback_of_line (lines []) = []) by reflexivity.
+  assert (E2 : flat_map lq_rollback_of_line [A] = []).
+  { cbn [flat_map]. rewrite app_nil_r. unfold lq_rollback_of_line. unfold A.
+    now rewrite has_prefix_changeset. }
+  assert (E3 : flat_map lq_rollback_of_line [B] = []).
+  { cbn [flat_map]. rewrite app_nil_r. unfold lq_rollback_of_line, B.
+    destruct (nonempty (c_comment c)); reflexivity. }
+  assert (E4 : flat_map lq_rollback_of_line (lines (c_cmd c ++ [59%N])) = []).
+  { unfold lq_cmd_ok in Hcmd. induction (lines (c_cmd c ++ [59%N])) as [|l ls IH]; [reflexivity|].
+    cbn [forallb] in Hcmd. apply andb_true_iff in Hcmd as [H1 H2]. apply negb_true_iff in H1.
+    cbn [flat_map]. unfold lq_rollback_of_line at 1. rewrite H1. cbn [app]. now apply IH. }
+  rewrite E1.
+  assert (G : forall (x1 x2 x3 r : list bytes), x1 = [] -> x2 = [] -> x3 = [] ->
+              [] ++ x1 ++ x2 ++ x3 ++ r = r) by (intros; subst; reflexivity).
+  apply G; [exact E2|exact E3|exact E4].
+Qed.
+
+Definition lq_change_ok (c : mchange) : Prop :=
+  no_nl (c_comment c) = true /\ lq_cmd_ok (c_cmd c) = true /\
+  forall s, In s (ReverseStmts c) -> no_nl s = true.
+
+Lemma lq_texts_read now : forall changes index,
+  no_nl now = true -> (forall c, In c changes -> lq_change_ok c) ->
+  map lq_rollbacks (lq_changeset_texts now index changes) = map ReverseStmts changes.
+Proof.
+  induction changes as [|c cs IH]; intros index Hn H; [reflexivity|].
+  simpl. f_equal.
+  - destruct (H c (or_introl eq_refl)) as (H1 & H2 & H3). now apply lq_changeset_read.
+  - apply IH; [exact Hn|]. intros c' Hc'. apply H. now right.
+Qed.
+
+Lemma flat_map_concat_map {B C} (f : B -> list C) l : flat_map f l = concat (map f l).
+Proof. induction l; simpl; congruence. Qed.
+
+Lemma liquibase_down_lemma now changes :
+  no_nl now = true -> (forall c, In c changes -> lq_change_ok c) ->
+  liquibase_down now changes = flat_map ReverseStmts (List.rev changes).
+Proof.
+  intros Hn H. unfold liquibase_down.
+  rewrite !flat_map_concat_map, !map_rev, lq_texts_read by assumption. reflexivity.
+Qed.
+
+Lemma liquibase_file_texts now : forall changes index,
+  lq_changesets now index changes = concat (lq_changeset_texts now index changes).
+Proof. induction changes as [|c cs IH]; intros index; simpl; [reflexivity|now rewrite IH]. Qed.
